@@ -18,7 +18,7 @@ structure Ring (α : Type) where
 deriving Repr, DecidableEq
 
 namespace Ring
-variable {α β : Type}
+variable {α β σ : Type}
 
 /-- `NewRingBuffer(size)`; Go `int` argument. -/
 def new (size : Int) : Ring α :=
@@ -99,15 +99,24 @@ def discard (r : Ring α) (n : Nat) : Nat × Ring α :=
     if e < cap then (n, { r with elems := clearRange r.elems r.head e, head := e })
     else (n, { r with elems := clearRange (clearRange r.elems r.head cap) 0 (e - cap), head := e - cap })
 
-/-- visit the slots at the given indices in order, writing back `f`'s result and stopping
-after the first `false`. -/
-def iter (f : Option α → Option α × Bool) : List Nat → List (Option α) → List (Option α)
-  | [], es => es
-  | i :: is, es =>
+/-- What one call of the iterator callback does: the closure's new captured state, the value
+it leaves in the slot (written through the `*T`), and its boolean result (`true` = continue). -/
+structure CbRes (σ α : Type) where
+  st   : σ
+  val  : Option α
+  cont : Bool
+
+/-- visit the slots at the given indices in order, threading the closure state `s`, writing back
+the callback's slot value and stopping after the first `false`.  An index outside the slice
+(a Go panic, unreachable from well-formed rings) ends the walk. -/
+def iter (f : σ → Option α → CbRes σ α) : σ → List Nat → List (Option α) → σ × List (Option α)
+  | s, [], es => (s, es)
+  | s, i :: is, es =>
     match es[i]? with
-    | none => es
+    | none => (s, es)
     | some x =>
-      if (f x).2 then iter f is (es.set i (f x).1) else es.set i (f x).1
+      if (f s x).cont then iter f (f s x).st is (es.set i (f s x).val)
+      else ((f s x).st, es.set i (f s x).val)
 
 /-- indices visited by `ForEach` -/
 def fwdIdx (r : Ring α) : List Nat :=
@@ -121,11 +130,13 @@ def revIdx (r : Ring α) : List Nat :=
   else if r.head < r.tail then (List.range' r.head (r.tail - r.head)).reverse
   else (List.range' 0 r.tail).reverse ++ (List.range' r.head (r.size - r.head)).reverse
 
-def forEach (r : Ring α) (f : Option α → Option α × Bool) : Ring α :=
-  { r with elems := iter f r.fwdIdx r.elems }
+/-- `ForEach(fn)`; `s` is the state captured by the closure `fn`; result: final closure state and ring. -/
+def forEach (r : Ring α) (f : σ → Option α → CbRes σ α) (s : σ) : σ × Ring α :=
+  ((iter f s r.fwdIdx r.elems).1, { r with elems := (iter f s r.fwdIdx r.elems).2 })
 
-def forEachReverse (r : Ring α) (f : Option α → Option α × Bool) : Ring α :=
-  { r with elems := iter f r.revIdx r.elems }
+/-- `ForEachReverse(fn)` -/
+def forEachReverse (r : Ring α) (f : σ → Option α → CbRes σ α) (s : σ) : σ × Ring α :=
+  ((iter f s r.revIdx r.elems).1, { r with elems := (iter f s r.revIdx r.elems).2 })
 
 end Ring
 end KcpVerif
